@@ -599,7 +599,13 @@ def _sigop(ctx, S):
                 check_sig_encoding(ctx, sg, flags)
                 check_pubkey_encoding(ctx, ky, flags, sv)
                 ok = ctx.branch(oracle(1, sg, ky, code, sv))
-            elif m is False: raise RefAbort('multisig: mocked key offered a different signature: whether the real check still runs is not prescribed')
+            elif m is False:
+                # a mocked key offered a signature that is not its partner.  If that signature is itself a listed one (it belongs to another key of this
+                # multisig), it must simply not match here: listed signatures are exempt from the encoding rules (doc/mock-values.md), otherwise the pair
+                # it is listed in could never succeed in a multisig under DERSIG/STRICTENC.  For an unlisted signature whether the real check still runs
+                # is not prescribed.
+                if any(len(ms) == len(sg) and ctx.branch(items_equal(ms, sg)) for (ms, mk) in (getattr(S, 'mock', None) or [])): ok = False
+                else: raise RefAbort('multisig: mocked key offered an unlisted signature: whether the real check still runs is not prescribed')
             else: ok = m
             if ok: isig += 1; sigs_left -= 1
             ikey += 1; keys_left -= 1
